@@ -33,6 +33,19 @@ def contexts():
     return {d: c.SQL_CONTEXT for d, c in query_classes().items()}
 
 
+def wrapper_cls(builder):
+    """the value-wrapper class a builder uses for constants (a private attribute of the builder: fall back to the generic wrapper
+    if a refactoring renames it - the dialect-specific literal form is then simply not exercised at that position)"""
+    from pypika_tortoise.terms import ValueWrapper
+
+    return builder.__dict__.get("_wrapper_cls") or getattr(builder, "wrapper_cls", None) or ValueWrapper
+
+
+def empty_builder(Q, **kwargs):
+    """an empty builder of Q's dialect class, through the public API (the class of what Q.from_ returns)"""
+    return type(Q.from_("t"))(**kwargs)
+
+
 def lex_dialect(d: str) -> str:
     return "sqlite" if d == "generic" else d
 
